@@ -111,8 +111,10 @@ def run(chk, ctx):
     chk.units['method_classes'] = len(keys)
     chk.assume('RecursionError / MemoryError are outside the property '
                '(nesting depth <= 64)')
-    chk.assume('warnings filters do not escalate DeprecationWarning to an '
-               'error (decoding Basic.RecoverAsync warns)')
+    chk.assume('the warnings filters of the process do not turn a warning '
+               'into an exception (no -W error): warnings.warn is modelled '
+               'as returning; on the unchanged tree decoding '
+               'Basic.RecoverAsync emits a DeprecationWarning')
     chk.assume('the decimal context is the default one (no trap for the '
                'scale range 0..255)')
     chk.assume('inputs are bytes objects')
